@@ -545,7 +545,10 @@ func checkRoundTrip(init *mp4.InitSegment, adds []*op, wit string) {
 		fail("DecodeFile", "reencode-differs", wit, "re-encoding the decoded init gives other bytes")
 	}
 	checkStructure(f.Init, adds, wit, "-decoded")
-	if stateString(f.Init, "") != stateString(init, "") {
+	canonAvcC = true
+	sDec, sBuilt := stateString(f.Init, ""), stateString(init, "")
+	canonAvcC = false
+	if sDec != sBuilt {
 		fail("DecodeFile", "state-differs", wit, "projected state of the decoded init differs from the built one")
 	}
 	// fragments for every track id
